@@ -223,11 +223,25 @@ Section WfTower.
       + apply Hv. exact Hty.
       + apply Hn. exact Hty.
       + apply Hn. exact Hty.
-    - intros k a IHa b IHb [Ha [Hb [Hta [Htb Hp]]]]. destruct (IHa Ha) as [Hva _].
-      assert (Hb2 : match arg_ast sel sast b with ArgLit l => lit_plain l | _ => false end = true).
-      { destruct b as [l|abs q|f]; [|destruct Hp|destruct Hp]. apply lit_ast_plain. exact Hb. }
-      destruct k; change (ok_arg_value (arg_ast sel sast a) && match arg_ast sel sast b with ArgLit l => lit_plain l | _ => false end = true);
-        rewrite (Hva Hta), Hb2; reflexivity.
+    - intros k a IHa b IHb [Ha [Hb [Hta [Htb Hp]]]]. destruct (IHa Ha) as [Hva _]. destruct (IHb Hb) as [Hvb _].
+      specialize (Hva Hta). specialize (Hvb Htb).
+      assert (Hb2 : fn2_pat lit_arg k (arg_ast sel sast b) -> (k = FMatch \/ k = FSearch) ->
+                    match arg_ast sel sast b with ArgLit l => lit_plain l | _ => false end = true).
+      { intros Hp' Hk. assert (Hl : lit_arg (arg_ast sel sast b)) by (destruct Hk as [-> | ->]; exact Hp').
+        destruct b as [l|abs q|f]; [|destruct Hl|destruct Hl]. apply lit_ast_plain. exact Hb. }
+      assert (Hcus : forall k', (negb (is_ext_name (fn2_name k')) || Nat.eqb 2 2)
+                                && (ok_arg_value (arg_ast sel sast a) && (ok_arg_value (arg_ast sel sast b) && true)) = true).
+      { intros k'. rewrite Hva, Hvb. rewrite orb_true_r. reflexivity. }
+      destruct k.
+      + change (ok_arg_value (arg_ast sel sast a) && match arg_ast sel sast b with ArgLit l => lit_plain l | _ => false end = true).
+        rewrite Hva, (Hb2 Hp) by auto. reflexivity.
+      + change (ok_arg_value (arg_ast sel sast a) && match arg_ast sel sast b with ArgLit l => lit_plain l | _ => false end = true).
+        rewrite Hva, (Hb2 Hp) by auto. reflexivity.
+      + exact (Hcus FIn).
+      + exact (Hcus FNin).
+      + exact (Hcus FNoneOf).
+      + exact (Hcus FAnyOf).
+      + exact (Hcus FSubsetOf).
     - intros l Hg. split; [intros _; apply lit_ast_plain; exact Hg|intros H; discriminate H].
     - intros abs q Hq. change (Forall (gseg_good sel sgood) q) in Hq.
       pose proof (gsegs_wf q Hq) as Hw. split.
